@@ -21,9 +21,10 @@ def gen_history(rng, style=None, nsec=None, resize=False, cancel=False):
     blocked = rng.choice(BLOCKED) if rng.random() < 0.8 else rng.randint(0, 100)
     if nsec is None:
         nsec = rng.randint(1, 10) if rng.random() < 0.8 else rng.randint(11, 40)
-    style = style or rng.choice(['sync', 'late', 'late', 'burst', 'noack'])
+    style = style or rng.choice(['sync', 'late', 'late', 'bytes', 'bytes', 'burst', 'noack'])
     nstreams = rng.choice([1, 2, 3, nsec, nsec])
-    sids = [4 * i for i in range(nstreams)]
+    sid0 = rng.choice([0, 0, 0, 100, 252, 16380, 1 << 20, (1 << 40) + 4])      # HeaderAck with 1, 2, 3 and more bytes
+    sids = [sid0 + 4 * i for i in range(nstreams)]
     unique = nstreams == nsec
     ops = []
     sec_sid = []
@@ -48,7 +49,7 @@ def gen_history(rng, style=None, nsec=None, resize=False, cancel=False):
     for j in range(nsec):
         nf = rng.choice([0, 1, 1, 2, 2, 3, 4, 6])
         fs = [(rng.choice(names), rng.choice(values)) for _ in range(nf)]
-        live = [s for s in sids if s not in cancelled] or [4 * (len(sids) + j)]
+        live = [s for s in sids if s not in cancelled] or [sid0 + 4 * (len(sids) + j)]
         sid = sids[j] if unique else rng.choice(live)
         sec_sid.append(sid)
         ops.append('E%d:%s' % (sid, '.'.join(fstr(f) for f in fs)))
@@ -61,10 +62,28 @@ def gen_history(rng, style=None, nsec=None, resize=False, cancel=False):
             ops.append('B%d' % j)
             dq_bound += 1
             feedback_all()
+        elif style == 'bytes':
+            # both streams move a few BYTES at a time: cuts inside string literals and multi-byte integers
+            for _ in range(rng.randint(0, 5)):
+                r = rng.random()
+                if r < 0.45:
+                    ops.append('i%d' % rng.choice([1, 1, 2, 3, 4, 5, 7, 8, 11, 16, 30]))
+                    dq_bound += 1
+                elif r < 0.7:
+                    ops.append('B%d' % rng.randint(0, j))
+                    dq_bound += 1
+                elif r < 0.95:
+                    ops.append('k%d' % rng.choice([1, 1, 1, 2, 2, 3, 5]))
+                else:
+                    ops.append(rng.choice(['I1', 'K1', 'I0', 'K0']))
+                    dq_bound += 1
         elif style in ('late', 'noack'):
             for _ in range(rng.randint(0, 3)):
                 r = rng.random()
-                if r < 0.35:
+                if r < 0.1:
+                    ops.append('i%d' % rng.choice([1, 2, 3, 5, 9, 20]))
+                    dq_bound += 1
+                elif r < 0.35:
                     k = rng.choice([0, 1, 1, 2, 3, 5])
                     ops.append('I%d' % k)
                     pending_bound = max(0, pending_bound)  # stays an upper bound
@@ -73,8 +92,10 @@ def gen_history(rng, style=None, nsec=None, resize=False, cancel=False):
                     t = rng.randint(0, j)
                     ops.append(('B%d' if rng.random() < 0.9 else 'b%d') % t)
                     dq_bound += 1
-                elif r < 0.9 and style != 'noack':
+                elif r < 0.8 and style != 'noack':
                     ops.append('K%d' % rng.choice([1, 1, 2, 3]))
+                elif r < 0.9 and style != 'noack':
+                    ops.append('k%d' % rng.choice([1, 2, 3]))
                 elif r < 0.96 and cancel and not unique and len(live) > 1:
                     c = rng.choice(live)
                     cancelled.add(c)
@@ -99,13 +120,50 @@ def gen_history(rng, style=None, nsec=None, resize=False, cancel=False):
     if rng.random() < 0.5:
         j = nsec
         fs = [(rng.choice(names), rng.choice(values)) for _ in range(rng.randint(1, 4))]
-        live = [s for s in sids if s not in cancelled] or [4 * (len(sids) + j)]
+        live = [s for s in sids if s not in cancelled] or [sid0 + 4 * (len(sids) + j)]
         ops.append('E%d:%s' % (rng.choice(live), '.'.join(fstr(f) for f in fs)))
         ops.append('b%d' % j)
         ops.append('I50')
         ops.append('B%d' % j)
         ops.append('K9')
     return '%s %d %d %s' % ('qz' if resize else 'qc' if cancel else 'qs', cap, blocked, ','.join(ops))
+
+
+def gen_ahead(rng):
+    """honest: the decoder is AHEAD of an old section's Required Insert Count across a multiple of 2*max_entries
+    (second wrap branch of HeaderPrefix::get): evictions after acknowledgements, one section left undecoded, more
+    insertions, then the old section is decoded"""
+    cap = rng.randint(68, 400)
+    me = cap // 32
+    entries = cap // 34
+    q = rng.randint(1, 3)
+    bd = 2 * me * q
+    mmax = entries - 1
+    if mmax < 1:
+        return gen_ahead(rng)
+    d = rng.randint(1, mmax)
+    m = rng.randint(d, mmax)
+    r = bd - d
+    n = [0]
+
+    def fresh():
+        i = n[0]
+        n[0] += 1
+        return (bytes([97 + (i // 26) % 26, 97 + i % 26]), b'')
+    ops = []
+    j = 0
+    sid0 = rng.choice([0, 252, 16380])
+    for _ in range(r - 1):
+        ops += ['E%d:%s' % (sid0 + 4 * j, fstr(fresh())), rng.choice(['I9', 'i40']), 'B%d' % j, rng.choice(['K9', 'k9'])]
+        j += 1
+    pinned = j
+    ops += ['E%d:%s' % (sid0 + 4 * j, fstr(fresh())), 'I9']
+    j += 1
+    for _ in range(m):
+        ops += ['E%d:%s' % (sid0 + 4 * j, fstr(fresh())), 'I9', 'B%d' % j, 'K9']
+        j += 1
+    ops += ['B%d' % pinned, 'K9']
+    return 'qs %d 100 %s' % (cap, ','.join(ops))
 
 
 def parse_case(case):
@@ -155,11 +213,15 @@ class P(Property):
 
     def cases(self, tier, rng):
         out = []
-        n = 1500 if tier == 'quick' else 40000
+        n = 1000 if tier == 'quick' else 40000
         for _ in range(n):
             out.append(gen_history(rng))
         for _ in range(n // 10):
             out.append(gen_history(rng, nsec=rng.randint(25, 40)))
+        for _ in range(n // 10):
+            out.append(gen_ahead(rng))
+        for _ in range(n // 5):
+            out.append(gen_history(rng, style='bytes'))
         for _ in range(n // 10):
             out.append(gen_history(rng, resize=True))
         for _ in range(n // 5):
@@ -179,7 +241,7 @@ class P(Property):
             me = m // 32
             eic = rng.randint(0, 2 * me)
             t2 = rng.randint(0, 600)
-            if eic == 0 or (eic - 1) <= t2 % (2 * me) + me:    # stays clear of the underflow class (see corpus)
+            if eic == 0 or t2 >= 2 * me or (eic - 1) <= t2 % (2 * me) + me:    # only the underflow class (see corpus) is left out
                 out.append('hp.get %d %d %d %d %d' % (eic, rng.randint(0, 1), rng.randint(0, 8), t2, m))
         return out
 
@@ -216,6 +278,8 @@ class P(Property):
         resized = False
         for k, (o, w) in enumerate(zip(ops, ow)):
             s = sw[k] if k < len(sw) else '*'
+            if o[0] in 'ik':
+                o = o[0].upper() + o[1:]
             if o[0] == 'Z':
                 resized = True
             if 'panic' in w and fam == 'qs':
@@ -280,7 +344,7 @@ class P(Property):
             h['histories'] += 1
             h['with_eviction'] += any(re.match(r'[td]\d+\.[1-9]', x.split(':')[-1]) for x in ws if x[:1] in 'EIKZ')
             h['with_blocked_result'] += 'B:blocked' in i
-            h['with_dynamic_ref_decoded'] += re.search(r'B:ok:[^ ]*:1', i) is not None
+            h['with_dynamic_ref_decoded'] += re.search(r'B:ok:[^ :]*:1:', i) is not None
             h['with_duplicate_instr'] += re.search(r'[:;]U\d', i) is not None
             h['with_dynamic_name_insert'] += re.search(r'[:;]ID\d', i) is not None
             h['with_relative_indexed'] += re.search(r'[:;]D\d', i) is not None
@@ -298,18 +362,49 @@ class P(Property):
                 if mm and int(mm.group(1)) > blocked:
                     over = True
             h['observation_blocked_count_above_limit'] += over
+        # coverage requirements of the in-scope family: the second wrap branch of HeaderPrefix::get (decoder ahead of an old
+        # section's Required Insert Count across a multiple of 2*max_entries) and instructions cut by byte-granular delivery
+        ahead = 0
+        cut = 0
+        for (c, i, m, s) in ctx['rows']:
+            if not c.startswith('qs '):
+                continue
+            w = c.split()
+            me = int(w[1]) // 32
+            ops = [o for o in w[3].split(',') if o]
+            ws = i.split()[1:]
+            dec_ins, req = 0, []
+            for o, x in zip(ops, ws):
+                f = x.split(':')
+                if o[0] == 'E' and len(f) > 2 and f[1].isdigit():
+                    req.append(int(f[1]))
+                elif o[0] in 'Ii' and len(f) > 2 and f[1].isdigit():
+                    if o[0] == 'i' and int(f[1]) == dec_ins:
+                        cut += 1
+                    dec_ins = int(f[1])
+                elif o[0] in 'Bb' and x.startswith('B:ok') and me >= 1:
+                    j = int(o[1:])
+                    if j < len(req) and 0 < req[j] < dec_ins and req[j] // (2 * me) < dec_ins // (2 * me):
+                        ahead += 1
+        h['decodes_ahead_across_wrap_boundary'] = ahead
+        h['byte_deliveries_ending_inside_an_instruction'] = cut
+        viol = []
+        if ctx['rows'] and ahead == 0:
+            viol.append(('coverage', {'message': 'no qs history decodes a section with the decoder ahead of its RIC across a 2*max_entries boundary'}))
+        if ctx['rows'] and cut == 0:
+            viol.append(('coverage', {'message': 'no qs history cuts an encoder-stream instruction with a byte-granular delivery'}))
         try:
             os.makedirs(os.path.join(os.path.dirname(os.path.dirname(os.path.dirname(os.path.abspath(__file__)))), 'evidence'), exist_ok=True)
             with open(os.path.join(os.path.dirname(os.path.dirname(os.path.dirname(os.path.abspath(__file__)))), 'notes', 'C20_histograms.json'), 'w') as f:
                 json.dump({'features': dict(h), 'sections_per_history': dict(sorted(sizes.items())), 'configurations': dict(sorted(caps.items()))}, f, indent=1)
         except OSError:
             pass
-        return []
+        return viol if len(ctx['rows']) > 100 else []
 
     def nontrivial_key(self, case, impl_out):
         if case.startswith('hp.'):
             return case if impl_out.startswith('ok') and not impl_out.startswith('ok 0 0') else None
-        if re.search(r'B:ok:[^ ]*:1', impl_out) or 'B:blocked' in impl_out:
+        if re.search(r'B:ok:[^ :]*:1:', impl_out) or 'B:blocked' in impl_out:
             return case
         return None
 
